@@ -46,6 +46,33 @@ theorem bp_of_noninfix (regs : Regs) (o : Name) (h : regs.isInfix o = false) : (
   | none => rfl
   | some c => simp [hl] at h
 
+/-- The postfix loop: what it consumes are postfix operators, applied innermost first. -/
+theorem parsePostfix_sound (regs : Regs) (lim : Nat) : ∀ (toks : List Tok) (lhs : AST) (hl0 : Nat) (c0 : List Tok) (e : AST) (h : Nat)
+    (rest : List Tok), GPrim regs c0 lhs → hl0 = lhs.height → hl0 ≤ lim → parsePostfix regs lim lhs hl0 toks = .ok (e, h, rest) →
+    ∃ c, toks = c ++ rest ∧ GPrim regs (c0 ++ c) e ∧ h = e.height ∧ h ≤ lim
+  | [], lhs, hl0, c0, e, h, rest, hg, h1, h2, hh => by
+    simp only [parsePostfix, Res.ok.injEq, Prod.mk.injEq] at hh
+    obtain ⟨rfl, rfl, rfl⟩ := hh
+    exact ⟨[], rfl, by simpa using hg, h1, h2⟩
+  | t :: r1, lhs, hl0, c0, e, h, rest, hg, h1, h2, hh => by
+    cases t with
+    | op o =>
+      simp only [parsePostfix] at hh
+      split at hh
+      · rename_i hpost
+        obtain ⟨h', hn, h3⟩ := Res.bind_eq_ok hh
+        obtain ⟨hn1, hn2⟩ := node_ok hn
+        obtain ⟨c, hc, hg', hh1, hh2⟩ := parsePostfix_sound regs lim r1 (.postfix lhs o) h' (c0 ++ [.op o]) e h rest
+          (GPrim.postfix hg hpost) (by simp [AST.height, hn1, h1]) (by omega) h3
+        exact ⟨.op o :: c, by simp [hc], by simpa [List.append_assoc] using hg', hh1, hh2⟩
+      · simp only [Res.ok.injEq, Prod.mk.injEq] at hh
+        obtain ⟨rfl, rfl, rfl⟩ := hh
+        exact ⟨[], rfl, by simpa using hg, h1, h2⟩
+    | _ =>
+      simp only [parsePostfix, Res.ok.injEq, Prod.mk.injEq] at hh
+      obtain ⟨rfl, rfl, rfl⟩ := hh
+      exact ⟨[], rfl, by simpa using hg, h1, h2⟩
+
 structure Sound (regs : Regs) (lim fuel : Nat) : Prop where
   tok : ∀ d toks e h rest, parseToken regs lim fuel d toks = .ok (e, h, rest) →
     ∃ c, toks = c ++ rest ∧ GTok regs c e ∧ h = e.height ∧ h ≤ lim
@@ -186,18 +213,8 @@ theorem step_prim (d : Nat) (toks : List Tok) (e : AST) (h : Nat) (rest : List T
   obtain ⟨⟨lhs, hl0, r⟩, htok, h2⟩ := Res.bind_eq_ok hh
   try dsimp only at h2
   obtain ⟨c, hc, hg, hh1, hh2⟩ := ih.tok d toks lhs hl0 r htok
-  split at h2
-  · rename_i o r1
-    split at h2
-    · rename_i hpost
-      obtain ⟨h', hn, h3⟩ := Res.bind_eq_ok h2
-      cases h3
-      obtain ⟨hn1, hn2⟩ := node_ok hn
-      exact ⟨c ++ [.op o], by simp [hc], GPrim.postfix hg hpost, by simp [AST.height, hn1, hh1], by omega⟩
-    · cases h2
-      exact ⟨c, hc, GPrim.tok hg, hh1, hh2⟩
-  · cases h2
-    exact ⟨c, hc, GPrim.tok hg, hh1, hh2⟩
+  obtain ⟨c', hc', hg', hh1', hh2'⟩ := parsePostfix_sound regs lim r lhs hl0 c e h rest (GPrim.tok hg) hh1 hh2 h2
+  exact ⟨c ++ c', by rw [hc, hc', List.append_assoc], hg', hh1', hh2'⟩
 
 theorem step_expr (d : Nat) (toks : List Tok) (e : AST) (h : Nat) (rest : List Tok)
     (hh : parseExpression regs lim (fuel + 1) d toks = .ok (e, h, rest)) :
